@@ -397,15 +397,151 @@ def _protocol(fi, kind):
                         if cur.orelse:
                             out.append(("<else>", seq(cur.orelse)))
                         break
-        # default: trailing statements after the chain
-        tail = []
-        seen_if = False
-        for st in stmts:
-            if isinstance(st, ast.If) and isinstance(st.test, ast.Compare) and isinstance(st.test.ops[0], ast.Is):
-                seen_if = True
-                continue
-            if seen_if:
-                tail.append(st)
+        # default: trailing statements after the last type chain
+        is_chain = [isinstance(st, ast.If) and isinstance(st.test, ast.Compare) and isinstance(st.test.ops[0], ast.Is) for st in stmts]
+        last = max([i for i, f in enumerate(is_chain) if f], default=-1)
+        tail = list(stmts[last + 1:]) if last >= 0 else []
         out.append(("<default>", seq(tail)))
     branch(fi.node.body)
+    # several chains may test the same type (e.g. a coercion block before the protocol block): merge them in order
+    merged, pos = [], {}
+    for k, v in out:
+        if k in pos:
+            merged[pos[k]] = (k, merged[pos[k]][1] + v)
+        else:
+            pos[k] = len(merged)
+            merged.append((k, v))
+    return merged
+
+
+# ---------------------------------------------------------------------------------------------------------------- R23.5 / R23.6
+def r23_5(ctx, m):
+    from ..util import cfg_of, find_nodes, known_atoms
+    from ..terms import inline_at
+    UT_ = "nifty.cl.utilities"
+    mod = m.module(UT_)
+    ctx.rule("R23.5", "raw-array payloads: in the ndarray branch of _send the object handed to comm.Send is C-contiguous on every path "
+                      "(np.ascontiguousarray, or a bypass guarded by a C-contiguity test; the receiver allocates a C-ordered buffer) and "
+                      "the payload is coerced to an array before its type is asserted (partial sums of 0-d arrays are numpy scalars)", floor=2)
+    sd = mod.functions.get("_send")
+    if sd is None:
+        ctx.error("_send missing")
+        return
+    ctx.saw_func(sd)
+    cfg = cfg_of(sd)
+    rd = cfg.reaching_defs(sd.params())
+    on = sd.params()[1]
+    dn = sd.params()[3] if len(sd.params()) > 3 else "dtype"
+    sends = [(n, c) for n, c in find_nodes(cfg, lambda q: isinstance(q, ast.Call) and isinstance(q.func, ast.Attribute) and q.func.attr == "Send")]
+    key = f"{sd.key}::buffer given to comm.Send is C-contiguous on every path"
+    if len(sends) != 1 or not sends[0][1].args:
+        ctx.und("R23.5", key, f"{len(sends)} raw Send calls", sd)
+    else:
+        n, c = sends[0]
+        arg = c.args[0]
+        verdict, det = True, []
+        defs = sorted((rd.get(n.id) or {}).get(arg.id, ())) if isinstance(arg, ast.Name) else []
+        if not defs:
+            verdict = None
+        for d in defs:
+            dnode = cfg.nodes[d]
+            if dnode.kind == "stmt" and isinstance(dnode.ast, ast.Assign):
+                v = dnode.ast.value
+                contig = any(isinstance(x, ast.Call) and call_name(x) in ("ascontiguousarray",) for x in ast.walk(v)) or \
+                    (isinstance(v, ast.Call) and call_name(v) in ("array", "require") and any(k.arg in ("order", "requirements") and "C" in src(k.value) for k in v.keywords))
+                coerce_only = isinstance(v, ast.Call) and call_name(v) in ("asarray", "asanyarray") and not contig
+                if contig:
+                    continue
+                if coerce_only:
+                    # a later definition must make it contiguous; this one reaching Send directly means a bypass
+                    pass
+            # this definition (parameter or non-normalising assignment) reaches Send: the path must be guarded by C-contiguity
+            at = known_atoms(cfg, n.id)
+            # guards that hold on the path from this definition: approximate by the tests dominating the normalising assignment's sibling branch
+            guards_ = []
+            for t in cfg.nodes:
+                if t.kind == "test":
+                    for b, lab in cfg.succ[t.id]:
+                        # the edge that skips the normalisation
+                        pass
+            txt = [(src(t).replace(" ", ""), pol) for t, pol in _bypass_guards(cfg, d, n.id, arg.id if isinstance(arg, ast.Name) else None)]
+            ok_guard = any(pol and (s_.endswith(".flags.c_contiguous") or s_.endswith(".flags['C_CONTIGUOUS']") or s_.endswith('.flags["C_CONTIGUOUS"]')) for s_, pol in txt) or \
+                any((not pol) and s_.startswith("not") and "c_contiguous" in s_ for s_, pol in txt)
+            if not ok_guard:
+                verdict = False
+                det.append(f"the value bound at `{short(dnode.ast) if dnode.ast is not None else 'entry'}` reaches comm.Send without np.ascontiguousarray"
+                           + (f" (bypass guarded by {[('' if p else 'not ') + s_ for s_, p in txt]}; only C-contiguity justifies it)" if txt else ""))
+        ctx.check("R23.5", key, verdict, "; ".join(det) or None, sd, c)
+    # coercion before the assertion
+    asserts = [n for n in cfg.nodes if n.kind in ("stmt", "test") and isinstance(n.ast, ast.Assert) and "isinstance" in src(n.ast.test)]
+    key = f"{sd.key}::array payload is coerced before its type is asserted"
+    if not asserts:
+        ctx.ok("R23.5", key, "no type assertion", sd)
+    else:
+        a = asserts[0]
+        # on the path dtype is np.ndarray: a definition `obj = np.asarray(obj)` must reach the assertion
+        defs = (rd.get(a.id) or {}).get(on, frozenset())
+        coerced = any(cfg.nodes[d].kind == "stmt" and isinstance(cfg.nodes[d].ast, ast.Assign) and isinstance(cfg.nodes[d].ast.value, ast.Call)
+                      and call_name(cfg.nodes[d].ast.value) in ("asarray", "ascontiguousarray", "asanyarray", "atleast_1d") and
+                      any(pol and src(t).replace(" ", "") in (f"{dn}isnp.ndarray", f"{dn}==np.ndarray") for t, pol in known_atoms(cfg, d)) for d in defs)
+        ctx.check("R23.5", key, coerced, None if coerced else f"`{short(a.ast)}` sees the raw partial sum: np.array(1.) + np.array(2.) is a numpy scalar, "
+                  f"not an ndarray, so the task raises and its partner waits forever", sd, a.ast)
+
+
+def _bypass_guards(cfg, def_id, use_id, name):
+    """tests (with polarity) on some path from the definition to the use that does not pass another definition of `name`"""
+    out = []
+    redef = [x.id for x in cfg.nodes if name in (cfg.node_defs(x) or ()) and x.id != def_id]
+    reach = cfg.reachable(def_id, avoid=redef, include_exc=False) if def_id != cfg.entry.id else cfg.reachable(cfg.entry.id, avoid=redef, include_exc=False)
+    for t in cfg.nodes:
+        if t.kind != "test" or t.id not in reach:
+            continue
+        for b, lab in cfg.succ[t.id]:
+            if lab in ("T", "F") and b not in redef:
+                r2 = cfg.reachable(b, avoid=redef, include_exc=False)
+                if use_id in r2:
+                    # does the other edge lead into a redefinition before the use?
+                    others = [bb for bb, ll in cfg.succ[t.id] if ll != lab]
+                    if any(use_id not in cfg.reachable(bb, avoid=redef, include_exc=False) or bb in redef for bb in others):
+                        out.append((t.ast, lab == "T"))
     return out
+
+
+def r23_6(ctx, m):
+    mod = m.module("nifty.cl.utilities")
+    ctx.rule("R23.6", "_bcast: the task that provides the payload is the one whose rank equals the root of the collectives "
+                      "(master = rank == root), every collective of the function uses that root, and the result is returned by all", floor=2)
+    bc = mod.functions.get("_bcast")
+    if bc is None:
+        ctx.error("_bcast missing")
+        return
+    ctx.saw_func(bc)
+    cn, on, rn = bc.params()[:3]
+    # the flag that selects `obj` over None
+    flags = set()
+    for x in ast.walk(bc.node):
+        if isinstance(x, ast.IfExp) and isinstance(x.test, ast.Name):
+            flags.add(x.test.id)
+    key = f"{bc.key}::payload provider is the task with rank == root"
+    if len(flags) != 1:
+        ctx.und("R23.6", key, f"selector flags {sorted(flags)}", bc)
+    else:
+        fl = flags.pop()
+        defs = [st for st in walk_no_nested(bc.node) if isinstance(st, ast.Assign) and any(isinstance(t, ast.Name) and t.id == fl for t in
+                                                                                         (st.targets[0].elts if isinstance(st.targets[0], ast.Tuple) else st.targets))]
+        okk = len(defs) == 1 and src(defs[0].value).replace(" ", "") in (f"{cn}.Get_rank()=={rn}", f"{rn}=={cn}.Get_rank()")
+        ctx.check("R23.6", key, okk, src(defs[0]) if defs else None, bc, defs[0] if defs else None)
+    colls = [c for c in ast.walk(bc.node) if isinstance(c, ast.Call) and isinstance(c.func, ast.Attribute) and c.func.attr in ("bcast", "Bcast") and src(c.func.value) == cn]
+    rec = [c for c in ast.walk(bc.node) if isinstance(c, ast.Call) and call_name(c) == "_bcast"]
+    okk = bool(colls) and all(any(k.arg == "root" and src(k.value) == rn for k in c.keywords) for c in colls) and \
+        all(len(c.args) == 3 and src(c.args[0]) == cn and src(c.args[2]) == rn for c in rec)
+    ctx.check("R23.6", f"{bc.key}::every collective and recursive call uses the same root", okk, f"{len(colls)} collectives, {len(rec)} recursive calls", bc)
+
+
+_run_c23b = run
+
+
+def run(ctx):  # noqa: F811
+    _run_c23b(ctx)
+    r23_5(ctx, ctx.model)
+    r23_6(ctx, ctx.model)
